@@ -57,6 +57,154 @@ pub struct S14 {
     pub wrap: Wrap14,
     pub elems: Vec<Elem>,
     pub side: Side14,
+    /// scale scenario: counters across a unary part / zero run / skip of 2^32 bits
+    #[serde(default)]
+    pub giant: Option<crate::giant::Giant>,
+    /// reader side, counting wrapper: after the last element seek back (through the
+    /// wrapper) to the start of element k and read the rest again
+    #[serde(default)]
+    pub rewind: Option<usize>,
+}
+
+/// Counting wrappers at scale: the writer wrapper over the sparse recording sink writes a
+/// unary part of 2^32 bits, the reader wrapper over the sparse source reads it back and
+/// (second reader) skips it in one call; counters are checked after every step, values and
+/// the image as in C01 / C02.
+macro_rules! giant_count {
+    ($E:ty, $e:expr, $W:ty, $RW:ty, $g:expr, $ctx:expr) => {{
+        let g: &crate::giant::Giant = $g;
+        let e: En = $e;
+        let ctx: &mut Ctx = $ctx;
+        ctx.step(crate::giant::tags(e, g, "giant_count_write"));
+        let sink = AnyWordWrite::<$W>::new(WrInner::Rec { refuse_at: None });
+        sink.log.borrow_mut().sparse = true;
+        let log = sink.log.clone();
+        let mut w = ManuallyDrop::new(CountBitWriter::<$E, _>::new(BufBitWriter::<$E, _>::new(sink)));
+        let mut total: u64 = 0;
+        let mut p = BitModel::new();
+        let mut r = BitModel::new();
+        r.bits.push(1);
+        let mut steps: Vec<(String, Result<Result<usize, String>, String>, u64)> = Vec::new();
+        for (v, n) in &g.pre {
+            let x = guard(|| w.write_bits(*v, *n).map_err(|e| e.to_string()));
+            total += *n as u64;
+            p.push_bits(e, *v, *n);
+            steps.push((format!("write_bits(_, {})", n), x, total));
+            if w.bits_written as u64 != total {
+                break;
+            }
+        }
+        if steps.iter().all(|s| matches!(s.1, Ok(Ok(_)))) && w.bits_written as u64 == total {
+            let x = guard(|| w.write_unary(g.q).map_err(|e| e.to_string()));
+            total += g.q + 1;
+            steps.push((format!("write_unary({})", g.q), x, total));
+        }
+        if steps.iter().all(|s| matches!(s.1, Ok(Ok(_)))) && w.bits_written as u64 == total {
+            for (v, n) in &g.post {
+                let x = guard(|| w.write_bits(*v, *n).map_err(|e| e.to_string()));
+                total += *n as u64;
+                r.push_bits(e, *v, *n);
+                steps.push((format!("write_bits(_, {})", n), x, total));
+                if w.bits_written as u64 != total {
+                    break;
+                }
+            }
+        }
+        ctx.ops += steps.len() as u64;
+        if let Some((what, res, _)) = steps.iter().find(|s| !matches!(s.1, Ok(Ok(_)))) {
+            return ctx.fail("C14.panic", format!("scale scenario: {} through CountBitWriter: {:?}", what, res));
+        }
+        if w.bits_written as u64 != total {
+            let (what, _, _) = steps.last().unwrap();
+            return ctx.fail(
+                "C14.bits_written",
+                format!("scale scenario: after {} bits_written = {} but {} bits have been appended through the wrapper", what, w.bits_written, total),
+            );
+        }
+        if !matches!(guard(|| w.flush().map_err(|e| e.to_string())), Ok(Ok(_))) {
+            return ctx.fail("C14.panic", "scale scenario: flush through CountBitWriter failed".into());
+        }
+        let (count, nz) = crate::giant::expected_sparse(e, <$W as SimWord>::NBITS, &p, g.q, &r);
+        {
+            let l = log.borrow();
+            ctx.ev(l.count);
+            if l.count != count || l.nonzero != nz {
+                let (c, got) = (l.count, l.nonzero.clone());
+                drop(l);
+                return ctx.fail(
+                    "C14.writer_not_transparent",
+                    format!("scale scenario: the sink received {} words, non-zero {:x?}; the bare image has {} words, non-zero {:x?}", c, got, count, nz),
+                );
+            }
+        }
+        let _ = guard(|| unsafe { ManuallyDrop::drop(&mut w) });
+        ctx.probe("scale.count_writer_2^32");
+        // ---- reader side
+        ctx.step(crate::giant::tags(e, g, "giant_count_read"));
+        let rbits = <$RW as SimWord>::NBITS;
+        let (bytes, head_words, zero_words) = crate::giant::sparse_stream(e, rbits, &p, g.q, &r);
+        let mk = || {
+            let words = bytes_to_words::<$RW>(&bytes);
+            let h = head_words.min(words.len());
+            BufBitReader::<$E, _>::new(AnyWordRead::<$RW>::new(RdInner::Sparse(SparseWordRead {
+                head: std::rc::Rc::new(words[..h].to_vec()),
+                zeros: zero_words,
+                tail: std::rc::Rc::new(words[h..].to_vec()),
+                pos: 0,
+            })))
+        };
+        for skip in [false, true] {
+            let mut rd = CountBitReader::<$E, _>::new(mk());
+            let mut total: u64 = 0;
+            for (v, n) in &g.pre {
+                match guard(|| rd.read_bits(*n).map_err(|e| e.to_string())) {
+                    Ok(Ok(y)) if y == *v => total += *n as u64,
+                    other => return ctx.fail("C14.reader_not_transparent", format!("scale scenario: read_bits({}) through CountBitReader returned {:?}, expected {:#x}", n, other, v)),
+                }
+            }
+            ctx.ops += 2;
+            if skip {
+                match guard(|| rd.skip_bits(g.q as usize).map_err(|e| e.to_string())) {
+                    Ok(Ok(())) => total += g.q,
+                    other => return ctx.fail("C14.panic", format!("scale scenario: skip_bits({}) through CountBitReader: {:?}", g.q, other)),
+                }
+                if rd.bits_read as u64 != total {
+                    return ctx.fail(
+                        "C14.bits_read",
+                        format!("scale scenario: after skip_bits({}) bits_read = {} but {} bits have been consumed", g.q, rd.bits_read, total),
+                    );
+                }
+                match guard(|| rd.read_unary().map_err(|e| e.to_string())) {
+                    Ok(Ok(0)) => total += 1,
+                    other => return ctx.fail("C14.reader_not_transparent", format!("scale scenario: read_unary after the long skip returned {:?}, expected 0", other)),
+                }
+            } else {
+                match guard(|| rd.read_unary().map_err(|e| e.to_string())) {
+                    Ok(Ok(y)) if y == g.q => total += g.q + 1,
+                    other => return ctx.fail("C14.reader_not_transparent", format!("scale scenario: read_unary through CountBitReader returned {:?}, expected {}", other, g.q)),
+                }
+            }
+            if rd.bits_read as u64 != total {
+                return ctx.fail(
+                    "C14.bits_read",
+                    format!("scale scenario: after reading a unary code of {} bits bits_read = {} but {} bits have been consumed", g.q + 1, rd.bits_read, total),
+                );
+            }
+            for (v, n) in &g.post {
+                match guard(|| rd.read_bits(*n).map_err(|e| e.to_string())) {
+                    Ok(Ok(y)) if y == *v => total += *n as u64,
+                    other => return ctx.fail("C14.reader_not_transparent", format!("scale scenario: read_bits({}) after the long run returned {:?}, expected {:#x}", n, other, v)),
+                }
+            }
+            ctx.ev(rd.bits_read as u64);
+            if rd.bits_read as u64 != total {
+                return ctx.fail("C14.bits_read", format!("scale scenario: at the end bits_read = {} but {} bits have been consumed", rd.bits_read, total));
+            }
+        }
+        ctx.progressed = true;
+        ctx.probe("scale.count_reader_2^32");
+        ctx.sig(&[9014, e as u64, <$W as SimWord>::NBITS as u64, rbits as u64]);
+    }};
 }
 
 pub struct C14;
@@ -195,6 +343,33 @@ macro_rules! reader_case {
             Ok(v) => v,
             Err(_) => return, // a failure of the bare reader is not this property's business
         };
+        // second phase: seek back to the start of element k, read the rest again
+        let rewind: Option<(usize, u64)> = match $s.rewind {
+            Some(k)
+                if k < $s.elems.len()
+                    && $s.wrap == Wrap14::Count
+                    && !$how.iter().any(|h| *h == 3)
+                    && bare_steps.len() == $s.elems.len()
+                    && bare_steps.iter().all(|st| st.obs != Obs::Err)
+                    && bare_pos.iter().all(|p| *p != u64::MAX) =>
+            {
+                Some((k, if k == 0 { $pre as u64 } else { bare_pos[k - 1] }))
+            }
+            _ => None,
+        };
+        let mut bare_pos2: Vec<u64> = Vec::new();
+        let mut bare_steps2: Vec<RStep> = Vec::new();
+        if let Some((k, target)) = rewind {
+            if !matches!(guard(|| bare.set_bit_pos(target)), Ok(Ok(()))) {
+                return;
+            }
+            bare_steps2 = match run_r::<$E, _>($e, &mut bare, &$s.elems[k..], &$how[k.min($how.len())..], &$peeks[k.min($peeks.len())..], maxp, &mut |r, _i| {
+                bare_pos2.push(r.bit_pos().unwrap_or(u64::MAX));
+            }) {
+                Ok(v) => v,
+                Err(_) => return,
+            };
+        }
         // ---- wrapped
         let mut inner = $mk;
         let mut left = $pre;
@@ -205,13 +380,35 @@ macro_rules! reader_case {
         }
         let mut counts: Vec<usize> = Vec::new();
         let mut wpos: Vec<u64> = Vec::new();
+        let mut counts2: Vec<usize> = Vec::new();
+        let mut wpos2: Vec<u64> = Vec::new();
+        let mut after_seek: Option<(u64, usize)> = None;
+        let mut wrapped_steps2: Option<Result<Vec<RStep>, String>> = None;
         let wrapped_steps = match $s.wrap {
             Wrap14::Count => {
                 let mut wr = CountBitReader::<$E, _>::new(inner);
-                run_r::<$E, _>($e, &mut wr, &$s.elems, $how, $peeks, maxp, &mut |r, _i| {
+                let r1 = run_r::<$E, _>($e, &mut wr, &$s.elems, $how, $peeks, maxp, &mut |r, _i| {
                     counts.push(r.bits_read);
                     wpos.push(r.bit_pos().unwrap_or(u64::MAX));
-                })
+                });
+                if let (Ok(_), Some((k, target))) = (&r1, rewind) {
+                    match guard(|| wr.set_bit_pos(target).is_ok()) {
+                        Ok(true) => {}
+                        other => {
+                            $ctx.set_tags(vec![format!("e={:?}", $s.e), "wrap=CountReader".into(), "op=set_bit_pos".into()]);
+                            return $ctx.fail(
+                                "C14.reader_not_transparent",
+                                format!("set_bit_pos({}) through the wrapper: {:?}; the bare reader accepted it", target, other),
+                            );
+                        }
+                    }
+                    after_seek = Some((wr.bit_pos().unwrap_or(u64::MAX), wr.bits_read));
+                    wrapped_steps2 = Some(run_r::<$E, _>($e, &mut wr, &$s.elems[k..], &$how[k.min($how.len())..], &$peeks[k.min($peeks.len())..], maxp, &mut |r, _i| {
+                        counts2.push(r.bits_read);
+                        wpos2.push(r.bit_pos().unwrap_or(u64::MAX));
+                    }));
+                }
+                r1
             }
             Wrap14::Dbg => {
                 let mut wr = DbgBitReader::<$E, _>::new(inner);
@@ -223,7 +420,84 @@ macro_rules! reader_case {
             Err(m) => return $ctx.fail("C14.panic", format!("wrapped reader: {}", m)),
         };
         compare_reader($s, $ctx, &bare_steps, &wrapped_steps, &bare_pos, &counts, &wpos, $pre as u64, $lens, $starts);
+        if let (false, Some((k, target)), Some(w2), Some((pos_after_seek, count_at_seek))) = ($ctx.failed(), rewind, wrapped_steps2, after_seek) {
+            let w2 = match w2 {
+                Ok(v) => v,
+                Err(m) => return $ctx.fail("C14.panic", format!("wrapped reader after set_bit_pos: {}", m)),
+            };
+            compare_rewind($s, $ctx, k, target, pos_after_seek, count_at_seek, &bare_steps2, &w2, &bare_pos2, &counts2, &wpos2);
+        }
     }};
+}
+
+/// Second phase of a reader case: after `set_bit_pos(target)` through the counting wrapper the
+/// position, every value and every later position equal those of the bare reader, and the
+/// counter grows by exactly the bits each operation consumes.
+#[allow(clippy::too_many_arguments)]
+fn compare_rewind(
+    s: &S14,
+    ctx: &mut Ctx,
+    k: usize,
+    target: u64,
+    pos_after_seek: u64,
+    count_at_seek: usize,
+    bare: &[RStep],
+    wrapped: &[RStep],
+    bare_pos: &[u64],
+    counts: &[usize],
+    wpos: &[u64],
+) {
+    let tg = |op: &str| vec![format!("e={:?}", s.e), "wrap=CountReader".to_string(), format!("op={}", op), "phase=after_seek".to_string()];
+    ctx.step(tg("set_bit_pos"));
+    ctx.probe("c14.seek_back_through_wrapper");
+    if pos_after_seek != target {
+        return ctx.fail(
+            "C14.position_not_transparent",
+            format!("after set_bit_pos({}) through the wrapper (start of elem #{}), bit_pos() through the wrapper is {}", target, k, pos_after_seek),
+        );
+    }
+    let mut prev_pos = target;
+    let mut prev_count = count_at_seek;
+    for i in 0..bare.len().min(wrapped.len()) {
+        ctx.step(tg("read_again"));
+        ctx.ops += 1;
+        if bare[i].obs != wrapped[i].obs || bare[i].peek != wrapped[i].peek || bare[i].copied != wrapped[i].copied {
+            return ctx.fail(
+                "C14.reader_not_transparent",
+                format!(
+                    "after seeking back to elem #{} through the wrapper, elem #{}: bare reader {:?} (peek {:?}), wrapped reader {:?} (peek {:?})",
+                    k,
+                    k + i,
+                    bare[i].obs,
+                    bare[i].peek,
+                    wrapped[i].obs,
+                    wrapped[i].peek
+                ),
+            );
+        }
+        if bare_pos[i] != wpos[i] {
+            return ctx.fail(
+                "C14.position_not_transparent",
+                format!("after seeking back to elem #{} through the wrapper, elem #{}: bit_pos is {} on the bare reader, {} through the wrapper", k, k + i, bare_pos[i], wpos[i]),
+            );
+        }
+        ctx.ev(counts[i] as u64);
+        if (counts[i] - prev_count) as u64 != wpos[i] - prev_pos {
+            return ctx.fail(
+                "C14.bits_read",
+                format!(
+                    "after seeking back to elem #{}, elem #{}: bits_read grew by {} but {} bits were consumed from the underlying stream",
+                    k,
+                    k + i,
+                    counts[i] - prev_count,
+                    wpos[i] - prev_pos
+                ),
+            );
+        }
+        prev_pos = wpos[i];
+        prev_count = counts[i];
+    }
+    ctx.progressed = true;
 }
 
 fn compare_reader(
@@ -644,6 +918,17 @@ impl Family for C14 {
     fn gen(rng: &mut Rng, _tier: Tier, index: u64) -> S14 {
         let e = if index % 2 == 0 { En::BE } else { En::LE };
         let wrap = if (index / 2) % 2 == 0 { Wrap14::Count } else { Wrap14::Dbg };
+        if crate::giant::is_giant_index(index) {
+            let g = crate::giant::unary_only(crate::giant::gen_giant(rng));
+            return S14 {
+                e: if rng.chance(1, 2) { En::BE } else { En::LE },
+                wrap: Wrap14::Count,
+                elems: Vec::new(),
+                side: Side14::Writer { word: g.wword, pre: Vec::new(), how: Vec::new() },
+                giant: Some(g),
+                rewind: None,
+            };
+        }
         let n = rng.usize_range(1, 10);
         let elems = gen_elems(rng, n, true);
         let m = elems.len();
@@ -674,6 +959,8 @@ impl Family for C14 {
                         .map(|_| if rng.chance(1, 4) { rng.usize_range(1, kind.max_peek()) } else { 0 })
                         .collect(),
                 },
+                giant: None,
+                rewind: if rng.chance(1, 3) { Some(rng.usize_range(0, m.saturating_sub(1))) } else { None },
             }
         } else {
             let word = [Wd::U8, Wd::U16, Wd::U32, Wd::U64, Wd::U128][((index / 8) % 5) as usize];
@@ -693,11 +980,24 @@ impl Family for C14 {
                     pre,
                     how: (0..m).map(|_| if rng.chance(1, 12) { 3 } else { *rng.pick(&[0u8, 0, 0, 1, 2]) }).collect(),
                 },
+                giant: None,
+                rewind: None,
             }
         }
     }
 
     fn exec(s: &S14, ctx: &mut Ctx) {
+        if let Some(g) = &s.giant {
+            match (s.e, g.wword) {
+                (En::BE, Wd::U32) => giant_count!(BE, s.e, u32, u32, g, ctx),
+                (En::LE, Wd::U32) => giant_count!(LE, s.e, u32, u32, g, ctx),
+                (En::BE, Wd::U128) => giant_count!(BE, s.e, u128, u64, g, ctx),
+                (En::LE, Wd::U128) => giant_count!(LE, s.e, u128, u64, g, ctx),
+                (En::BE, _) => giant_count!(BE, s.e, u64, u64, g, ctx),
+                (En::LE, _) => giant_count!(LE, s.e, u64, u64, g, ctx),
+            }
+            return;
+        }
         match &s.side {
             Side14::Reader { kind, pre_bits, how, peeks } => {
                 // the stream: pre_bits of filler, then the elements
@@ -787,6 +1087,12 @@ impl Family for C14 {
 
     fn shrink(s: &S14) -> Vec<S14> {
         let mut out = Vec::new();
+        if let Some(g) = &s.giant {
+            for g2 in crate::giant::shrink_giant(g) {
+                out.push(S14 { giant: Some(g2), ..s.clone() });
+            }
+            return out;
+        }
         // remove element k together with its per-element settings
         for k in 0..s.elems.len() {
             if s.elems.len() == 1 {
@@ -873,7 +1179,7 @@ impl Family for C14 {
     }
 
     fn rule() -> &'static str {
-        "one case = (endianness, wrapper {Count, Dbg}, side {reader over u16/u32/u64 buffered or unbuffered; writer over u16/u32/u64/u128}, 0..2W+1 bits consumed/written on the inner stream before the wrapper is created, 1-10 items (all codes incl. table-parameterised variants and parameterless defaults, raw fields consumed by read_bits / skip_bits / copy_to or written by write_bits / copy_from, optional peek before an item, optional flush after an item)); the same history runs on the bare stream and through the wrapper. distinct_nontrivial = distinct (endianness, wrapper, word, operation incl. method variant, peek-path?/flush?) signatures"
+        "one case = (endianness, wrapper {Count, Dbg}, side {reader over u16/u32/u64 buffered or unbuffered; writer over u16/u32/u64/u128}, 0..2W+1 bits consumed/written on the inner stream before the wrapper is created, 1-10 items (all codes incl. table-parameterised variants and parameterless defaults, raw fields consumed by read_bits / skip_bits / copy_to or written by write_bits / copy_from, optional peek before an item, optional flush after an item)); the same history runs on the bare stream and through the wrapper. distinct_nontrivial = distinct (endianness, wrapper, word, operation incl. method variant, peek-path?/flush?) signatures Scale scenarios: one run in 100 000 writes a unary part of 2^32 bits through CountBitWriter into a sparse recording sink and reads / skips it through CountBitReader over a sparse source; counters after every step, values and image as for the bare objects."
     }
 
     fn components() -> (Vec<&'static str>, Vec<&'static str>) {
@@ -885,6 +1191,9 @@ impl Family for C14 {
 
     fn required_probes(_t: Tier) -> Vec<&'static str> {
         vec![
+            "c14.seek_back_through_wrapper",
+            "scale.count_writer_2^32",
+            "scale.count_reader_2^32",
             "c14.read_through_peek_and_skip_after_peek",
             "c14.counter_checked_after_flush",
             "c14.failing_copy_to",
